@@ -279,7 +279,12 @@ func (pc *parentController) manageRevisions(parent *unstructured.Unstructured, o
 	}
 
 	// Create or update desired objects.
-	for _, revision := range desiredRevisions {
+	// The latest revision is first in the list: go backwards, so that a child is
+	// removed from its old revision before it is recorded under the latest one.
+	// If we are interrupted in between, the child is claimed by no revision (and
+	// is given to the latest one on the next sync) rather than by two.
+	for i := len(desiredRevisions) - 1; i >= 0; i-- {
+		revision := desiredRevisions[i]
 		if oldObj := observedMap[revision.Name]; oldObj != nil {
 			// Update
 			if common.DeepEqual(oldObj, revision) {
